@@ -7,7 +7,7 @@
    functions are total, and [at_rest] shows the decode loop stops only where no
    further frame is decodable (its fuel is never what stops it). *)
 From MC Require Import Model.Base Model.Generated Model.Store Model.Codec Model.Handler Model.Conn
-  Spec.Quiet Proofs.CodecLemmas Proofs.Framing Proofs.Chunking Proofs.PC10 Proofs.PDispatch Proofs.PGuards Model.RustInt.
+  Spec.Quiet Proofs.CodecLemmas Proofs.Framing Proofs.Chunking Proofs.PC10 Proofs.PDispatch Proofs.PGuards Proofs.PBody Model.RustInt.
 
 (* for every codec state, buffer and limit *)
 Theorem C10_decode_never_panics : forall c src, snd (decode c src) <> DPanic.
@@ -107,6 +107,71 @@ Theorem C10_request_layout_is_source : src_request_layout_ok = true ->
             end.
 Proof. exact request_layout_is_source. Qed.
 Print Assumptions C10_request_layout_is_source.
+
+(* what each body parser reads from the buffer, in which order and into which field, is
+   what the source says (the get_uN / split_to calls of the parser, translated on every
+   run): behind its guards the model parser is the generic reader on the source's list.
+   Field numbers: 1 flags, 2 expiration, 3 key, 4 value, 5 delta, 6 initial. *)
+Theorem C10_set_body_is_source : src_body_reads_set_ok = true -> forall h body,
+  parse_set h body =
+  if negb (request_valid h true) then DError EInvalidData else
+  if blen body <? 8 + h_keylen h + value_len h then DError EInvalidData else
+  match read_body h src_body_reads_set body with
+  | None => DPanic
+  | Some vs => set_frame h (bnum 1 vs) (bnum 2 vs) (bbytes 3 vs) (bbytes 4 vs)
+  end.
+Proof. exact set_body_is_source. Qed.
+Print Assumptions C10_set_body_is_source.
+
+Theorem C10_incdec_body_is_source : src_body_reads_incdec_ok = true -> forall h body,
+  parse_inc_dec h body =
+  if negb (request_valid h true) then DError EInvalidData else
+  if blen body <? 20 + h_keylen h then DError EInvalidData else
+  match read_body h src_body_reads_incdec body with
+  | None => DPanic
+  | Some vs => incdec_frame h (bnum 5 vs) (bnum 6 vs) (bnum 2 vs) (bbytes 3 vs)
+  end.
+Proof. exact incdec_body_is_source. Qed.
+Print Assumptions C10_incdec_body_is_source.
+
+Theorem C10_append_body_is_source : src_body_reads_append_ok = true -> forall h body,
+  parse_append_prepend h body =
+  if negb (request_valid h true) then DError EInvalidData else
+  match read_body h src_body_reads_append body with
+  | None => DPanic
+  | Some vs => append_frame h (bbytes 3 vs) (bbytes 4 vs)
+  end.
+Proof. exact append_body_is_source. Qed.
+Print Assumptions C10_append_body_is_source.
+
+Theorem C10_get_body_is_source : src_body_reads_get_ok = true -> forall h body,
+  parse_get h body =
+  if negb (request_valid h true) then DError EInvalidData else
+  match read_body h src_body_reads_get body with
+  | None => DPanic
+  | Some vs => get_frame h (bbytes 3 vs)
+  end.
+Proof. exact get_body_is_source. Qed.
+Print Assumptions C10_get_body_is_source.
+
+Theorem C10_delete_body_is_source : src_body_reads_delete_ok = true -> forall h body,
+  parse_delete h body =
+  if negb (request_valid h true) then DError EInvalidData else
+  match read_body h src_body_reads_delete body with
+  | None => DPanic
+  | Some vs => delete_frame h (bbytes 3 vs)
+  end.
+Proof. exact delete_body_is_source. Qed.
+Print Assumptions C10_delete_body_is_source.
+
+(* the generic reader on a concrete set body (8 + 1 + 2 bytes) *)
+Example C10_read_body_nonvacuous :
+  read_body (mkHdr 128 1 1 8 0 0 11 0 0) src_body_reads_set
+            (map n2b [0;0;0;7; 0;0;0;9; 107; 118;119]) =
+  (if src_body_reads_set_ok
+   then Some [(1, BN 7); (2, BN 9); (3, BB [n2b 107]); (4, BB (map n2b [118;119]))]
+   else Some []).
+Proof. exact read_body_example. Qed.
 
 (* the buffer is reserved only behind a comparison with the item size limit: the
    codec's parse_header (site 1) has one, and it is the model's comparison *)
